@@ -57,7 +57,7 @@ def groups(sc, tier):
         g.name = "C03.via_" + g.name
     gs += refr
     # crystal diffraction: Bragg angle, Q, atomic factors (a failure carries exactly one error; a zero factor is no failure), bad inputs of F_H
-    diffr = [g for g in C13.groups(sc, tier) if g.name in ("C13.K2.Bragg_angle", "C13.K2.Q_scattering_amplitude", "C13.K2.Atomic_Factors", "C13.K5.F_H.bad_input")]
+    diffr = [g for g in C13.groups(sc, tier) if g.name in ("C13.K2.Bragg_angle", "C13.K2.Q_scattering_amplitude", "C13.K2.Atomic_Factors", "C13.K2.Atomic_Factors.optional", "C13.K5.F_H.bad_input")]
     for g in diffr:
         g.name = "C03.via_" + g.name
     gs += diffr
